@@ -228,8 +228,11 @@ def model (ls : List String) : List String :=
 /-! ### judge: the statement of C05 evaluated on the implementation's own output
 
 Reference = the enumeration the implementation printed (`it` lines, or the `nb`/`nx` neighbourhood of each
-query for fixtures) and the generator's claim which relative address each lookup address stands for. Nothing
-of `SymList` / `Breakpad` / `JitDump` is used. -/
+query for fixtures) and the generator's claim which relative address each lookup address stands for. For the generated kinds the
+enumeration itself is checked against the description (`judgeEnum`: the best named candidate per address, in
+the order symbol table, dynamic symbols, exports, unwind-table placeholders, entry point) and no answer may
+extend across a known function / text-section end (`judgeExtent`). Nothing of the sort / de-duplication /
+search of `SymList` / `Breakpad` / `JitDump` is used. -/
 
 structure EnumItem where
   addr : Nat
@@ -322,6 +325,104 @@ where
       if checkNames ∧ ¬ en.any (fun e => e.addr = start ∧ e.dem = name) then
         some s!"[name] answer name {name} at {start} is not the demangled name of the enumerated entry" else none
 
+
+/-! #### what the description itself says (generated kinds): which symbols the enumeration must list, and where
+functions / text sections end. Computed from the op lines only (no sort, no de-duplication, no search). -/
+
+def relOf (base a : Nat) : Option Nat := if base ≤ a ∧ a - base < U32 then some (a - base) else none
+
+def ObjOps.base (o : ObjOps) : Nat :=
+  match o.segs with
+  | (_, v, _) :: _ => v
+  | [] => 0
+
+def ObjOps.execIdx (o : ObjOps) : List Nat :=
+  (zipIdx1 o.secs).filterMap fun p => if p.2.1 = "t" ∨ p.2.1 = "x" then some p.1 else none
+
+/-- a function symbol with an address, in an executable section -/
+def ObjOps.funcSym (o : ObjOps) (s : RawSym) : Bool :=
+  s.value ≠ 0 && (s.typ = "f" || s.typ = "i") && (match s.shndx with
+    | some i => o.execIdx.contains i
+    | none => false)
+
+/-- the named candidates for each relative address, best first: symbol table, dynamic symbol table, exports,
+`fun_<addr>` placeholders of the unwind table, the entry point -/
+def objCandidates (o : ObjOps) : List (Nat × Option Name) :=
+  let base := o.base
+  let tab (dyn : Bool) : List (Nat × Option Name) :=
+    (o.syms.filter fun s => s.dyn == dyn && o.funcSym s).filterMap fun s => (relOf base s.value).map (·, s.name)
+  let defs := o.syms.filter fun s => s.dyn && s.isDefinition
+  let exports : List (Nat × Option Name) :=
+    if defs.all (·.name.isSome) then defs.map fun s => ((s.value - base) % U32, s.name) else []
+  let starts : List (Nat × Option Name) := o.fdes.map fun f => (f.1 % U32, some (SymList.synthName (f.1 % U32)))
+  let entry : List (Nat × Option Name) :=
+    if base ≤ o.entry then [((o.entry - base) % U32, some SymList.entryPointName)] else []
+  tab false ++ tab true ++ exports ++ starts ++ entry
+
+/-- one line per address in ascending order: the best candidate's name (nothing if it has no readable name) -/
+def bestPerAddress (cands : List (Nat × Option Name)) : List (Nat × Name) :=
+  let addrs := ((cands.map (·.1)).eraseDups).mergeSort (fun a b => a ≤ b)
+  addrs.filterMap fun x =>
+    match cands.find? (fun c => c.1 == x) with
+    | some (_, some n) => some (x, n)
+    | _ => none
+
+/-- relative addresses at which the file says a function or a text section ends -/
+def objKnownEnds (o : ObjOps) : List Nat :=
+  let base := o.base
+  let endOf (a size : Nat) : Option Nat := if a + size < U64 then relOf base (a + size) else none
+  (o.syms.filter fun s => !s.dyn && o.funcSym s && s.size ≠ 0 && s.name.isSome).filterMap (fun s => endOf s.value s.size)
+  ++ (o.secs.filter fun s => s.1 = "t").filterMap (fun s => endOf s.2.1 s.2.2.1)
+  ++ (if base = 0 then o.fdes.filterMap (fun f => if f.1 + f.2 < U32 then some (f.1 + f.2) else none) else [])
+
+def jitExpectedEnum (ls : List String) : List (Nat × Name) :=
+  let rec go (ls : List String) (cum : Nat) (acc : List (Nat × Name)) : List (Nat × Name) :=
+    match ls with
+    | [] => acc.reverse
+    | l :: rest =>
+      match words l with
+      | ["load", len, nm] => go rest (cum + nat! len) ((cum, hexName nm) :: acc)
+      | _ => go rest cum acc
+  go ls 0 []
+
+def bpCandidates (ls : List String) : List (Nat × Option Name) :=
+  ls.filterMap fun l =>
+    match words l with
+    | ["func", a, _, n] => some (nat! a, if n = "!" then none else some (hexName n))
+    | ["pub", a, n] => some (nat! a, if n = "!" then none else some (hexName n))
+    | _ => none
+
+def showEnum (l : List (Nat × Name)) : List String := l.map fun p => s!"{p.1} {bytesHex p.2}"
+
+/-- the implementation's enumeration must be the one the description prescribes -/
+def judgeEnum (kind : String) (rest : List String) (en : List EnumItem) : Option String :=
+  let expected : Option (List (Nat × Name)) :=
+    if kind = "obj" then some (bestPerAddress (objCandidates (parseObj rest)))
+    else if kind = "bp" then some (bestPerAddress (bpCandidates rest))
+    else if kind = "jit" then some (jitExpectedEnum rest)
+    else none
+  match expected with
+  | none => none
+  | some ex =>
+    let got := en.map fun e => s!"{e.addr} {e.raw}"
+    let want := showEnum ex
+    if got = want then none else
+      match (got.zip want).find? (fun p => p.1 ≠ p.2) with
+      | some p => some s!"[enum] enumeration lists '{p.1}' where the file prescribes '{p.2}'"
+      | none => some s!"[enum] enumeration has {got.length} entries, the file prescribes {want.length}"
+
+/-- no answer may extend across an address at which the file says a function or text section ends -/
+def judgeExtent (ends : List Nat) (al : AnsLine) : Option String :=
+  match al.answers with
+  | [one] =>
+    match parseAns one with
+    | some (.hit (start, some n, _)) =>
+      match ends.find? (fun e => start < e ∧ e < start + n) with
+      | some e => some s!"[extent] answer {start}+{n} for {al.form} {al.addr} extends across the known end {e}"
+      | none => none
+    | _ => none
+  | _ => none
+
 def judge (ops impl : List String) : Bool × String :=
   match ops with
   | [] => (false, "bad-op")
@@ -336,7 +437,12 @@ def judge (ops impl : List String) : Bool × String :=
     let en := impl.filterMap parseIt
     let als := impl.filterMap parseAnsLine
     if als.length ≠ qs.length then (false, s!"{als.length} answer lines for {qs.length} queries") else
-    match (qs.zip als).findSome? (fun p => judgeQuery checkNames en p.1 p.2) with
+    let kind := kw.getD 1 ""
+    let ends := if kind = "obj" then objKnownEnds (parseObj rest) else []
+    match judgeEnum kind rest en with
+    | some why => (false, why)
+    | none =>
+    match (qs.zip als).findSome? (fun p => (judgeQuery checkNames en p.1 p.2).orElse fun _ => judgeExtent ends p.2) with
     | some why => (false, why)
     | none =>
       -- address forms: all lookups that stand for the same relative address have the same answer
